@@ -2,7 +2,7 @@
 (* Case generator for C14: (entry point, fault class, position, base program).                  *)
 EXTENDS FrontDefs, Json, IOUtils
 GenOn == IOEnv.GEN = "1"
-Positions == {"first", "middle", "last", "inblock", "inmacro", "ininclude"}
+Positions == {"first", "middle", "last", "inblock", "inmacro", "ininclude", "inif", "inelse", "infor", "inscope"}
 Bases == {"b1", "b2", "b3"}
 VARIABLE c
 GInit == c = <<>>
